@@ -4,11 +4,11 @@ func init() {
 	register(Harness{
 		Prop: "C12", Pkg: "zzc12", Func: "VerifC12Scan", ExtraPkgs: []string{"storage", "storage/mem"},
 		InitPkgs: []string{"storage", "storage/mem"},
-		Quick:    [][]int64{{1, 0, 0}, {2, 1, 0}, {3, 2, 0}, {2, 2, 1}},
-		Thorough: [][]int64{{1, 0, 0}, {2, 1, 0}, {3, 2, 0}, {3, 3, 0}, {4, 2, 0}, {2, 2, 1}, {3, 2, 1}},
+		Quick:    [][]int64{{1, 0, 0}, {2, 1, 0}, {3, 2, 0}, {2, 2, 1}, {3, 0, 2}},
+		Thorough: [][]int64{{1, 0, 0}, {2, 1, 0}, {3, 2, 0}, {3, 3, 0}, {4, 2, 0}, {2, 2, 1}, {3, 2, 1}, {3, 0, 2}, {3, 2, 2}},
 		Unwind:   30,
 		Desc:     "RetentionScanner.DoScan over the real memory store with m1+m2 messages of symbolic age in two mailboxes, symbolic retention period and symbolic non-decreasing clock: older than (clock before scan - period) => removed, younger than (clock after scan - period) => retained in order",
-		Bounds:   "params (messages in mailbox a, in mailbox b, race: a fresh delivery lands in each mailbox between the scanner's snapshot and its removals); symbolic 64-bit ages within +-2000 h, period within +-1000 h, clock readings",
+		Bounds:   "params (messages in mailbox a, in mailbox b, race 1: a fresh delivery lands in each mailbox between the scanner's snapshot and its removals; race 2: a client removes the first message of the mailbox at that point); symbolic 64-bit ages within +-2000 h, period within +-1000 h, clock readings",
 		Assumes:  []string{"time.Time is modelled as int64 nanoseconds (all Time methods used are engine intrinsics over that model)", "memory store only; the racing delivery is placed at one point (after the snapshot of its mailbox), other interleavings are not explored"},
 	}, Harness{
 		Prop: "C12", Pkg: "zzc12", Func: "VerifC12Start", ExtraPkgs: []string{"storage", "storage/mem"},
